@@ -27,6 +27,8 @@ pub type Entry = (NodeId, EdgeId);
 // E1: the compressed form is opaque; what it holds is an uninterpreted multiset
 #[verifier::external_body] pub struct CompressedAdjacencyChunk { _p: () }
 impl CompressedAdjacencyChunk { pub uninterp spec fn entries(&self) -> Multiset<Entry>; }
+// std: mem::take returns the old value (what it leaves behind - T::default() - is deliberately not specified)
+pub assume_specification<T: Default>[ core::mem::take::<T> ](dest: &mut T) -> (r: T) ensures r == *old(dest);
 // R29: `v.drain(..)` - ASSUMED std contract
 #[verifier::external_body] fn drain_all<T>(v: &mut Vec<T>) -> (r: Vec<T>) ensures r@ == old(v)@, final(v)@ == Seq::<T>::empty() { v.drain(..).collect() }
 
@@ -113,6 +115,7 @@ def build(repo):
     st.sub('E1', 'SmallVec<[(NodeId, EdgeId); 16]>', 'Vec<(NodeId, EdgeId)>')
     st.sub('E1', 'FxHashSet<EdgeId>', 'HashSet<EdgeId>')
     for w, why in [('external_body CompressedAdjacencyChunk', 'E1: the compressed chunk is opaque; its content is an uninterpreted multiset'),
+                   ('assume_specification core::mem::take', 'std: take returns the previous value; nothing is assumed about what is left behind'),
                    ('external_body drain_all', 'R29: std Vec::drain(..) yields every element in order and leaves the vector empty'),
                    ('external_body AdjacencyChunk::compress', 'sort + DeltaBitPacked + BitPackedInts: ASSUMED to keep the multiset of entries (bounded Kani cross-check in unit ADJACENCY; the codecs themselves are C15)')]:
         u.trust(w, why)
@@ -155,7 +158,7 @@ def build(repo):
     f = u.method(SRC, 'AdjacencyList', 'mark_deleted').D1()
     f.ensures('entries_untouched', 'final(self).ms() == old(self).ms() && final(self).hot_chunks == old(self).hot_chunks')
 
-    f = u.method(SRC, 'AdjacencyList', 'compact').D1().R28().R29()
+    f = u.method(SRC, 'AdjacencyList', 'compact').D1().R28().R29().R5()
     f.requires('wf', 'old(self).wf()')
     f.requires('capacity_positive', 'chunk_capacity > 0')      # with capacity 0 every push fails and compact LOSES the delta entries (ChunkedAdjacency::with_chunk_capacity(0))
     f.ensures('wf', 'final(self).wf()')
@@ -211,7 +214,7 @@ def build(repo):
     f.before('continue;', 'proof { assert(oldest.seq() =~= Seq::<Entry>::empty()); lemma_ms_empty(); assert(oldest.ms() =~= Multiset::<Entry>::empty()); }', optional=True)
     L.body_end('proof { lemma_cold_push(c, compressed); }')
 
-    f = u.method(SRC, 'AdjacencyList', 'freeze_all').D1().R29()
+    f = u.method(SRC, 'AdjacencyList', 'freeze_all').D1().R29().R5()
     f.requires('wf', 'old(self).wf()')
     f.ensures('wf', 'final(self).wf()')
     f.ensures('no_entry_lost_or_duplicated', 'final(self).ms() =~= old(self).ms()')
